@@ -160,7 +160,7 @@ def replay_open(f):
 
 
 def run(ctx, args):
-    ctx.regen(["GenWs.v", "GenWrap.v"])
+    ctx.regen(["GenWs.v", "GenNames.v", "GenReduce.v", "GenWrap.v", "GenPretty.v"])
     ctx.build("Props/C19.vo")
     if args.replay:
         with open(args.replay) as f:
